@@ -379,6 +379,13 @@ class ZIPHandler(BaseHandler):
         if not self.config.getboolean("handlers.ZIP.ZIPHandler", "enabled"):
             return False
 
+        # Archives are opened by path (zipfile.is_zipfile, the index cache):
+        # only the real file system will do.  On the index of an archive a
+        # member named *.zip would otherwise be looked up - and its cache
+        # written - in the process's working directory.
+        if type(self.vfs) is not VFS_Real:
+            return False
+
         pattern = re.compile(self.config.get("handlers.ZIP.ZIPHandler", "pattern"))
 
         basename = self.selector
